@@ -61,12 +61,14 @@ def handle (cmd : String) (args : List Sx) : String :=
     match parseLT lt, b.bytes?, e.nat? with
     | some lt, some b, some e => toString (trimLineTerminator lt b 0 e)
     | _, _, _ => "bad-op"
-  | "c19.print", [lt, only, hay, rs, re, t, .list (.atom "names" :: ns), .list (.atom "table" :: tab)] =>
-    match parseLT lt, only.bool?, hay.bytes?, rs.nat?, re.nat?, t.bytes?, parseNames ns, tab.mapM parseCaps with
-    | some lt, some only, some hay, some rs, some re, some t, some names, some tab =>
+  | "c19.print", [lt, only, pm, hay, rs, re, t, .list (.atom "names" :: ns), .list (.atom "table" :: tab)] =>
+    match parseLT lt, only.bool?, pm.bool?, hay.bytes?, rs.nat?, re.nat?, t.bytes?, parseNames ns, tab.mapM parseCaps with
+    | some lt, some only, some pm, some hay, some rs, some re, some t, some names, some tab =>
       let st := replaceAllLine lt (fun _ pos => (tab[pos]?).join) names hay rs re t
-      toHex (printMatched lt only (slice hay rs re) st)
-    | _, _, _, _, _, _, _, _ => "bad-op"
+      -- records as `col:hex` (col `-` when the line went through sink_fast)
+      " ".intercalate ((printRecords lt only pm (slice hay rs re) st).map fun r =>
+        optNat r.col ++ ":" ++ toHex r.text)
+    | _, _, _, _, _, _, _, _, _ => "bad-op"
   | "c19.replace", [lt, hay, rs, re, t, .list (.atom "names" :: ns), .list (.atom "table" :: tab)] =>
     match parseLT lt, hay.bytes?, rs.nat?, re.nat?, t.bytes?, parseNames ns, tab.mapM parseCaps with
     | some lt, some hay, some rs, some re, some t, some names, some tab =>
